@@ -310,3 +310,5 @@ def run(ctx: Ctx, rep: Report, tier: str):
     rep.rule("C05.V15", "conflicts are split the same way every time: SyncState.split moves the LOCAL half to a new entry and keeps the REMOTE half on the original "
              "(so 'remote wins, local gets out of the way' means something), clears the moved half, marks both changed, resets both last-synced paths", 7)
     split_contract(ctx, rep, "C05.V15")
+    _alias(rep, ["C07.R6"], "C05.V16", "the handle a resolver reads is a complete download (C07.R6 for ResolveFile.download): a failed download leaves nothing under the final "
+           "temp name that a later attempt would present as the side's content", 2, lambda: _C07(ctx, rep).r6())
